@@ -1,7 +1,6 @@
 ----------------------------- MODULE CodecGen -----------------------------
 (* GEN: TLC enumerates the case set of strength IOEnv.STRENGTH and writes  *)
-(* it (with the value the specification expects back, for the reader of a  *)
-(* replay file) as NDJSON to IOEnv.CASES_FILE; first line: the base values *)
+(* it as NDJSON to IOEnv.CASES_FILE; first line: the base values           *)
 (* (used by the driver only to name the culprit field of a refusal).       *)
 EXTENDS Codec, Json, IOUtils, SequencesExt, Randomization
 
@@ -17,11 +16,11 @@ RandomPins == RandomSubset((NRandom * 3) \div 4, PinAll({<<>>})) \cup RandomSubs
 RandomCases == {[rec |-> "Pin", fmt |-> fmt, v |-> v] : fmt \in PinFormats, v \in RandomPins}
 
 All == UNION {Cases(rec, Strength) : rec \in Recs} \cup RandomCases
-WithExp == {[rec |-> k.rec, fmt |-> k.fmt, v |-> k.v, exp |-> Proj(k.rec, k.fmt, k.v)] : k \in All}
-Header == [hdr |-> TRUE, strength |-> Strength, n |-> Cardinality(All),
-           base |-> [rec \in Recs |-> MinBase(rec)]]
-
-ASSUME ndJsonSerialize(IOEnv.CASES_FILE, <<Header>> \o SetToSeq(WithExp))
+\* (LET: the case set is built once)
+ASSUME LET all == All IN
+       ndJsonSerialize(IOEnv.CASES_FILE,
+            <<[hdr |-> TRUE, strength |-> Strength, n |-> Cardinality(all), base |-> [rec \in Recs |-> MinBase(rec)]]>>
+            \o SetToSeq(all))
 
 VARIABLE x
 Init == x = 0
